@@ -9,6 +9,12 @@ package main
 //     what it passes as the tag: 0 = the variable bound to the tag result of GetEnvironment in the same command
 //     (assigned exactly once, before the call), 1 = the literal "", 2 = anything else; and whether the call sits
 //     inside the `if file != "" { ... }` branch (the non-interactive `env edit --file`, outside the property).
+//   * cmd/esc/cli/client/retry.go: occ_should_retry_exact = every `return` of retryPolicy.shouldRetry is `true`,
+//     `false` or `req.Method == <verb>` and doWithRetry re-sends only under `if policy.shouldRetry(req)`: the table
+//     srcfacts reads for C20 (Src/SrcClient.v: should_retry_table, default_policy, the RetryPolicy option of
+//     UpdateEnvironmentWithRevision) is then the whole truth about which requests are sent again, and
+//     Model/OccSrc.v computes from it whether a PATCH is replayed after a lost reply.  Anything else (e.g. a clause
+//     that looks at a header) gives false, which breaks C14_src_update_not_replayed.
 
 import (
 	"fmt"
@@ -280,6 +286,74 @@ func srcOcc(f *facts, o *out) {
 			})
 		}
 		boolFact("occ_update_with_project_forwards_tag", rec, val)
+	}
+
+	// retry.go: shouldRetry decides on the policy and the verb alone; doWithRetry re-sends only when it says so
+	{
+		const retryGo = "cmd/esc/cli/client/retry.go"
+		rec, val := false, false
+		if fd := f.methodDecl(retryGo, "shouldRetry"); fd != nil {
+			rec, val = true, true
+			nret := 0
+			ast.Inspect(fd.Body, func(n ast.Node) bool {
+				rs, ok := n.(*ast.ReturnStmt)
+				if !ok {
+					return true
+				}
+				nret++
+				if len(rs.Results) != 1 {
+					val = false
+					return true
+				}
+				switch r := rs.Results[0].(type) {
+				case *ast.Ident:
+					if r.Name != "true" && r.Name != "false" {
+						val = false
+					}
+				case *ast.BinaryExpr:
+					sel, ok := r.X.(*ast.SelectorExpr)
+					if r.Op != token.EQL || !ok || !isIdent(sel.X, "req") || sel.Sel.Name != "Method" {
+						val = false
+					}
+					switch y := r.Y.(type) {
+					case *ast.SelectorExpr:
+						if !isIdent(y.X, "http") || !strings.HasPrefix(y.Sel.Name, "Method") {
+							val = false
+						}
+					case *ast.BasicLit:
+						if y.Kind != token.STRING {
+							val = false
+						}
+					default:
+						val = false
+					}
+				default:
+					val = false
+				}
+				return true
+			})
+			if nret == 0 {
+				val = false
+			}
+			// doWithRetry: `if policy.shouldRetry(req) { ... return <retrying call> }; return client.Do(req)`
+			dw := f.funcDecl(retryGo, "doWithRetry")
+			if dw == nil || dw.Body == nil || len(dw.Body.List) != 2 {
+				val = false
+			} else {
+				is, ok1 := dw.Body.List[0].(*ast.IfStmt)
+				rs, ok2 := dw.Body.List[1].(*ast.ReturnStmt)
+				if !ok1 || !ok2 || is.Else != nil || is.Init != nil || selName(is.Cond) != "shouldRetry" ||
+					len(rs.Results) != 1 || selName(rs.Results[0]) != "Do" {
+					val = false
+				}
+			}
+		}
+		if rec {
+			boolFact("occ_should_retry_exact", true, val)
+		} else {
+			o.add("Definition occ_should_retry_exact : bool := false. (* default *)")
+			f.status["occ_should_retry_exact"] = "unrecognised"
+		}
 	}
 
 	// the commands
